@@ -271,6 +271,11 @@ class Pass1(CompilePass):
         params = []
         for decl in node.params:
             self.compilation.validate_decl(decl)
+            if any(decl.name == pname for pname, _ in params):
+                raise CompileError(
+                    EC.DUPLICATE_DEFINITION,
+                    f'Duplicate parameter: {decl.name}',
+                    node=decl)
 
             # set type based on existing top-level DEF* statements (if
             # any) when no explicit type is specified
@@ -304,6 +309,11 @@ class Pass1(CompilePass):
         params = []
         for decl in node.params:
             self.compilation.validate_decl(decl)
+            if any(decl.name == pname for pname, _ in params):
+                raise CompileError(
+                    EC.DUPLICATE_DEFINITION,
+                    f'Duplicate parameter: {decl.name}',
+                    node=decl)
 
             # set type based on existing top-level DEF* statements (if
             # any) when no explicit type is specified
